@@ -218,7 +218,8 @@ def norm_ty(s):
 # ---------------------------------------------------------------------------------------------- explicit bound(...)
 EB_LET = {"Display": "", "Debug": "?", "LowerHex": "x", "UpperHex": "X", "Octal": "o", "Binary": "b", "LowerExp": "e", "UpperExp": "E",
           "Pointer": "p"}
-EB_PRELUDE = (PRELUDE + "pub trait Mk { const NAME: &'static str; }\npub struct Qm;\nimpl Mk for Qm { const NAME: &'static str = \"qm\"; }\n")
+EB_PRELUDE = (PRELUDE + "pub trait Mk { const NAME: &'static str; }\npub struct Qm;\nimpl Mk for Qm { const NAME: &'static str = \"qm\"; }\n"
+              "impl Mk for i32 { const NAME: &'static str = \"i32\"; }\nimpl Mk for &'static i32 { const NAME: &'static str = \"ri32\"; }\n")
 
 
 def eb_build(c, key):
@@ -244,17 +245,18 @@ def eb_build(c, key):
         lit += "{" + f0 + spec + "}"
     if not lit:
         lit = "lit"
-    litattr = f"#[{a}({vlib.rust_str(lit)}{''.join(', ' + x for x in args)})]"
+    litattr = f"#[{a}({vlib.rust_str(lit)}{''.join(', ' + x for x in args)})]" if c["lit"] else ""
 
     def battr(prm):
         return f"#[{a}({c['spelling']}({prm}: Mk))]"
-    params = (["T"] if c["gf"] else []) + (["U"] if c["other"] == "generic" else []) + (["Q"] if cont else []) + (["R"] if var else [])
+    qs = "T" if (not is_enum and not c["lit"]) else "Q"      # ExplicitBounds.tla QSubj
+    params = (["T"] if c["gf"] else []) + (["U"] if c["other"] == "generic" else []) + (["Q"] if cont and qs == "Q" else []) + (["R"] if var else [])
     inst = {"T": "&'static i32" if D == "Pointer" else "i32", "U": "&'static i32" if D == "Pointer" else "i32", "Q": "Qm", "R": "Qm"}
     ph_ty = "core::marker::PhantomData<(" + ", ".join(p for p in params if p in ("Q", "R")) + ",)>"
     if not is_enum:
-        fs = fields + [("ph", ph_ty)]
+        fs = fields + ([("ph", ph_ty)] if qs == "Q" else [])
         body = ("(" + ", ".join(f"pub {t}" for _, t in fs) + ");") if tuple_form else ("{ " + ", ".join(f"pub {n}: {t}" for n, t in fs) + " }")
-        attrs = [litattr, battr("Q")]
+        attrs = [x for x in (litattr, battr(qs)) if x]
         if not c["split"]:
             attrs.reverse()
         item = " ".join(attrs) + f"\npub struct S<{', '.join(params)}>" + ((" " + body) if not tuple_form else body)
@@ -262,7 +264,7 @@ def eb_build(c, key):
         vb = ""
         if fields:
             vb = ("(" + ", ".join(t for _, t in fields) + ")") if tuple_form else (" { " + ", ".join(f"{n}: {t}" for n, t in fields) + " }")
-        vattrs = [litattr] + ([battr("R")] if var else [])
+        vattrs = [x for x in [litattr] + ([battr("R")] if var else []) if x]
         if not c["split"]:
             vattrs.reverse()
         variants = [" ".join(vattrs) + " V" + vb]
@@ -285,7 +287,7 @@ def explicit_bounds_check(chk, tier, seed, replay):
     cases = {}
     for rec in r.cases:
         c = rec["c"]
-        k = "bound|" + "|".join(f"{x}={c[x]}" for x in ("D", "kind", "bpos", "gf", "shape", "other", "spelling", "split", "uses"))
+        k = "bound|" + "|".join(f"{x}={c[x]}" for x in ("D", "kind", "bpos", "gf", "shape", "other", "spelling", "split", "uses", "lit"))
         cases[k] = (c, rec["preds"])
     if replay:
         want = json.load(open(replay))["key"]
